@@ -237,13 +237,13 @@ func derivations(thorough bool, f func(name string, ss []string)) {
 	for _, wd := range menu {
 		s := symTable[wd]
 		_, isAsg := isAssignSym(&s)
-		f("W", []string{"a", wd})            // argument
-		f("W", []string{"a", wd, wd})        // two arguments
-		f("W", []string{"a", ">", wd})       // redirection target
-		f("W", []string{"a", wd, ">", "f"})  // word directly before a redirection (tight layout: a -1>f)
+		f("W", []string{"a", wd})           // argument
+		f("W", []string{"a", wd, wd})       // two arguments
+		f("W", []string{"a", ">", wd})      // redirection target
+		f("W", []string{"a", wd, ">", "f"}) // word directly before a redirection (tight layout: a -1>f)
 		f("W", []string{"a", wd, "<<E"})
 		f("W", []string{"{", "a", ";", "}", ">", "f", "2>", wd})
-		f("W", []string{"2>", wd, "a"})      // redirection target in the prefix
+		f("W", []string{"2>", wd, "a"}) // redirection target in the prefix
 		f("W", []string{"{", "a", ";", "}", ">", wd})
 		f("W", []string{"for", "x", "in", wd, "b", ";", "do", "a", ";", "done"})
 		f("W", []string{"for", "x", "in", "a", wd, ";", "do", "a", ";", "done"})
@@ -258,12 +258,12 @@ func derivations(thorough bool, f func(name string, ss []string)) {
 			f("W", []string{"case", "a", "in", "(", wd, ")", "a", ";;", "esac"})
 		}
 		if !reservedWords[wd] && !isAsg {
-			f("W", []string{wd})          // command name
-			f("W", []string{wd, "a"})     //
-			f("W", []string{"x=1", wd})   // command name after an assignment
+			f("W", []string{wd})        // command name
+			f("W", []string{wd, "a"})   //
+			f("W", []string{"x=1", wd}) // command name after an assignment
 		}
 		if reservedWords[wd] {
-			f("W", []string{"x=1", wd})      // after a prefix a reserved word is an ordinary command name
+			f("W", []string{"x=1", wd}) // after a prefix a reserved word is an ordinary command name
 			f("W", []string{">", "f", wd})
 		}
 		if isAsg {
